@@ -1,10 +1,11 @@
 SPECIFICATION Spec
 CONSTANTS
-  Level = 1
-  Sites = {"call"}
-  Dump = FALSE
+  Level = 2
+  Sites = {"fstr", "pct", "call", "join"}
+  Dump = TRUE
 INVARIANT WellFormed
 INVARIANT DigitLaw
 INVARIANT BufOK
+INVARIANT ImplExplained
 INVARIANT Publish
 CHECK_DEADLOCK FALSE
